@@ -15,10 +15,11 @@ import (
 	"mcverif/engine"
 	"mcverif/gen"
 	"mcverif/rw"
+	"mcverif/vmap"
 )
 
 var Spec = engine.Spec{
-	ID: "C01", Run: Run, QuickBud: 6 * time.Minute, ThorBud: 30 * time.Minute,
+	ID: "C01", Run: Run, MapOrders: true, MapOrdersQuick: []int{vmap.Alternating}, QuickBud: 6 * time.Minute, ThorBud: 30 * time.Minute,
 	Technique: "explicit enumeration of document construction spaces (all graph shapes over <=3 (thorough 4) SPDX ids with ordered edge-object lists, root subsets and kind patterns; full enum sweeps; all attribute-deviation sets of size <=2 (thorough 3)) through the real writer (SPDX23JSON, 3 indents) and reader, against a set-of-triples graph model and a per-attribute comparison; second pass must change nothing",
 	Rule:      "case = one constructed document (+ indent); distinct state = canonical document key; oracle = reference triple (nodes with kind, typed triples, roots) and listed attributes equal after write->read, idempotent on a second pass",
 	Assume: []string{
@@ -162,6 +163,9 @@ func RoundTrip(t *engine.T, d *sbom.Document, indent int) *engine.Violation {
 	if err != nil {
 		return engine.Violate("write-error", "", "writing a representable document failed: %v", err)
 	}
+	if n, err := rw.NormalizeJSON(out); err == nil {
+		t.Observe(n) // the written document must not depend on the map iteration order
+	}
 	back, err := rw.Read(out)
 	t.Transitions(1)
 	if err != nil {
@@ -278,7 +282,9 @@ func stringContents(c *engine.Ctx) {
 		{"pkg.extref.comment", func(p, f *sbom.Node, v string) {
 			p.ExternalReferences = []*sbom.ExternalReference{{Type: sbom.ExternalReference_NPM, Url: "https://r/x", Comment: v}}
 		}},
-		{"pkg.purl", func(p, f *sbom.Node, v string) { p.Identifiers = map[int32]string{int32(sbom.SoftwareIdentifierType_PURL): "pkg:generic/" + v} }},
+		{"pkg.purl", func(p, f *sbom.Node, v string) {
+			p.Identifiers = map[int32]string{int32(sbom.SoftwareIdentifierType_PURL): "pkg:generic/" + v}
+		}},
 		{"pkg.hash", func(p, f *sbom.Node, v string) { p.Hashes = map[int32]string{int32(sbom.HashAlgorithm_SHA256): v} }},
 	}
 	var ms []string
